@@ -898,8 +898,9 @@ def emit(path):
          "  final :=\n    %s" % ulist(m["final"]),
          "  getBlockBytes := %d" % m["getBlockBytes"],
          "  rotlBody := %s" % m["rotlBody"],
-         "  fmixBody :=\n    %s" % m["fmixBody"],
-         "  defaultSeed := %d" % m["defaultSeed"], "",
+         "  fmixBody :=\n    %s" % m["fmixBody"], "",
+         "/-- default argument of `seed` in `hash128(const void *, std::size_t, std::uint32_t = …)` -/",
+         "def murmurDefaultSeed : Nat := %d" % m["defaultSeed"], "",
          "end Vita.C03.GenPack", ""]
     txt = "\n".join(L)
     old = open(path).read() if os.path.exists(path) else None
